@@ -170,6 +170,9 @@ func Symbolic() bool { return false }
 // Note records an assumption / remark for the evidence.
 func Note(msg string) {}
 
+// Guard switches the engine's lock-discipline monitor (spec "guarded") on or off; natively a no-op.
+func Guard(on bool) {}
+
 // Event records a monitor event.
 func Event(msg string) {}
 
@@ -222,7 +225,6 @@ var privHex = []string{
 	"1202000000000000000000000000000000000000000000000000000000000001582d03d7b5f3e30b5d69b2ab69ca8714681dd947b24020de46f3b1bea6b9bb141d56dc",
 	"1202000000000000000000000000000000000000000000000000000000000001771c02c8bb34e46b144e77d567a6eaa1eae84d24dd75028d69a45dc6ac1e5143d1eb4f",
 }
-
 
 // PubKey returns table key i.
 func PubKey(i int) keypair.PublicKey {
